@@ -1407,7 +1407,15 @@ class Model(Object):
     def __exit__(self, type, value, traceback) -> None:
         """Pop the top context manager and trigger the undo functions."""
         context = self._contexts.pop()
-        context.reset()
+        # The undo functions must not be recorded themselves: some of them call
+        # context-aware code, which would register new undo functions in the
+        # enclosing context and change the model again when that context exits.
+        outer_contexts = self._contexts
+        self._contexts = []
+        try:
+            context.reset()
+        finally:
+            self._contexts = outer_contexts
 
     def merge(
         self,
